@@ -20,6 +20,7 @@ type PropUnit struct {
 	Func      string   `json:"func"`
 	Groups    []string `json:"groups,omitempty"`    // claimed obligation groups (default: all)
 	Tier      string   `json:"tier,omitempty"`      // "thorough": the unit is checked only by the thorough tier (slow obligations)
+	Slow      []string `json:"slow,omitempty"`      // obligation-name patterns claimed only by the thorough tier (slow / seed-sensitive in the solver)
 	Claim     []string `json:"claim,omitempty"`     // obligation-name substrings claimed in addition to the groups
 	Unclaimed []string `json:"unclaimed,omitempty"` // obligation-name substrings not claimed (with reason in Why)
 	Why       string   `json:"why,omitempty"`
@@ -273,6 +274,7 @@ type funcEvidence struct {
 
 func runCheck(id, tier string, seed int) int {
 	t0 := time.Now()
+	currentTier = tier
 	vd := verifDir()
 	data, err := os.ReadFile(filepath.Join(vd, "props", id+".json"))
 	if err != nil {
@@ -483,7 +485,7 @@ func runCheck(id, tier string, seed int) int {
 	var solverSec float64
 	var canaryBad []string
 	matchedFinding := map[string]bool{}
-	var unclaimedNames []string
+	var unclaimedNames, slowNames []string
 	assumeScan := map[string]int{}
 	for _, cs := range eng.contracts {
 		for k, v := range cs.Scan {
@@ -516,6 +518,8 @@ func runCheck(id, tier string, seed int) int {
 				unclaimedN++
 				if matchesAny(o.Name, pu.Unclaimed) {
 					unclaimedNames = append(unclaimedNames, o.Name)
+				} else if matchesAny(o.Name, pu.Slow) {
+					slowNames = append(slowNames, o.Name)
 				}
 				continue
 			}
@@ -591,7 +595,7 @@ func runCheck(id, tier string, seed int) int {
 		"coverage": map[string]any{
 			"obligations": total, "discharged": discharged, "checker_cmd": fmt.Sprintf("bin/vcgo check %s --tier %s", id, tier),
 			"trusted_base": spec.Trusted, "explanation": spec.Explanation, "samples": samples,
-			"functions": funcs, "unclaimed_obligations": unclaimedN, "unclaimed_by_name": unclaimedNames, "skipped_functions": skippedStar, "known_findings_matched": len(knownLines),
+			"functions": funcs, "unclaimed_obligations": unclaimedN, "unclaimed_by_name": unclaimedNames, "thorough_tier_only": slowNames, "skipped_functions": skippedStar, "known_findings_matched": len(knownLines),
 			"solver_seconds": round3(solverSec), "backends": []string{"z3-new 5.1.0", "z3 4.8.12", "cvc5 1.0"},
 			"assumption_scan": assumeScan, "not_decided": spec.NotDecided,
 			"evaluations": total, "distinct_nontrivial": discharged,
@@ -600,7 +604,12 @@ func runCheck(id, tier string, seed int) int {
 	}
 	os.MkdirAll(filepath.Join(vd, "evidence"), 0o755)
 	eb, _ := json.MarshalIndent(ev, "", " ")
-	os.WriteFile(filepath.Join(vd, "evidence", id+".json"), eb, 0o644)
+	if os.Getenv("VERIF_REPO") != "" {
+		// a run against a scratch copy (seeded change): not the evidence of /repo
+		os.WriteFile(filepath.Join(outDir, "evidence.json"), eb, 0o644)
+	} else {
+		os.WriteFile(filepath.Join(vd, "evidence", id+".json"), eb, 0o644)
+	}
 	fmt.Printf("%s: obligations=%d discharged=%d unclaimed=%d known-findings=%d violations=%d wall=%.1fs\n", id, total, discharged, unclaimedN, len(knownLines), violations, time.Since(t0).Seconds())
 	if violations > 0 {
 		return 1
@@ -623,9 +632,14 @@ func uniq(ss []string) []string {
 	return out
 }
 
+var currentTier = "quick"
+
 // isClaimed: the obligation is claimed by the unit (group listed, or name matches a `claim` pattern) and not excluded.
 func isClaimed(pu PropUnit, o *Obligation) bool {
 	if matchesAny(o.Name, pu.Unclaimed) {
+		return false
+	}
+	if currentTier != "thorough" && matchesAny(o.Name, pu.Slow) {
 		return false
 	}
 	if len(pu.Claim) > 0 && matchesAny(o.Name, pu.Claim) {
